@@ -3,6 +3,7 @@ package main
 import (
 	"encoding/csv"
 	"os"
+	"strings"
 )
 
 func init() { commands["mkcsv"] = mkcsvCmd }
@@ -18,6 +19,7 @@ func mkcsvCmd(args []string) {
 	}
 	w := csv.NewWriter(f)
 	first := true
+	minimal := false // STYLE minimal: hand-written CSV, quotes only where the format needs them
 	for _, l := range lines {
 		t := newToks(l)
 		if !t.more() {
@@ -42,9 +44,27 @@ func mkcsvCmd(args []string) {
 					pr("\n")
 				}
 			}
+			if minimal {
+				// leading / trailing blanks and tabs, NUL, non-UTF-8 bytes stay unquoted (a reader
+				// that does not trim must keep them); an empty single field must be quoted
+				for i, fld := range rec {
+					if i > 0 {
+						f.WriteString(",")
+					}
+					if strings.ContainsAny(fld, "\",\n\r") || (fld == "" && len(rec) == 1) {
+						f.WriteString("\"" + strings.ReplaceAll(fld, "\"", "\"\"") + "\"")
+					} else {
+						f.WriteString(fld)
+					}
+				}
+				f.WriteString("\n")
+				continue
+			}
 			if err := w.Write(rec); err != nil {
 				fatal("csv write: %v", err)
 			}
+		case "STYLE":
+			minimal = t.next() == "minimal"
 		case "RAW":
 			// raw bytes appended after flushing what was written so far (malformed input)
 			w.Flush()
